@@ -82,6 +82,7 @@ func allLitsIn(n ast.Node) []*ast.FuncLit {
 func (r *Run) mustPrecede(fn ast.Node, construct, tagA, tagB string, isA, isB evPred) (nB int) {
 	seenB := map[token.Pos]bool{}
 	spec := &pathsim.Spec{
+		InlineCalls: true, // see through extracted helpers
 		Step: func(c *pathsim.Ctx, s pathsim.State, ev *pathsim.Event) []pathsim.State {
 			if isA(c, ev) {
 				s.A = 1
@@ -139,7 +140,7 @@ func (r *Run) errCheckedOpt(fn ast.Node, construct, tagA, tagB string, isA, isB 
 	seenB := map[token.Pos]bool{}
 	// pendingCall: an A call event was just seen; the enclosing statement decides where the
 	// error goes. We resolve that syntactically from the parent statement of the call.
-	spec := &pathsim.Spec{}
+	spec := &pathsim.Spec{InlineCalls: true}
 	spec.AtomDeps = map[int][]types.Object{}
 	spec.Atom = func(c *pathsim.Ctx, e ast.Expr) (int, bool, bool) {
 		x, notNil, ok := pathsim.IsNilCompare(c.Info, e)
